@@ -37,6 +37,7 @@ type Obligation struct {
 	Bounded   string // non-empty: counted as bounded, with this note
 	Replay    *ReplayPlan
 	Structural bool // decided syntactically (frame checker), no SMT query
+	Canary     bool // a deliberately false postcondition: must NOT be provable (self-test of the generator)
 }
 
 type namedTerm struct {
